@@ -151,6 +151,9 @@ def generate(rng, n, tier, stats):
             else:
                 if not have: continue
                 old = rng.choice(have); op = ['rename_key', old, rng.choice([x for x in keys_pool + ['z1', 'z2'] if x not in have] + [old])]
+                if len(have) >= 2 and rng.random() < 0.3:
+                    # onto the key of ANOTHER variable, which is thereby replaced (its dimensions go when nothing else uses them)
+                    op = ['rename_key', old, rng.choice([x for x in have if x != old])]; stats['rename_key_onto_existing']['yes'] += 1
             stats['history_op'][op[0] + (':reject' if k == 'reject' else '')] += 1
             holder = [ds]
             status = apply_op(holder, op); ds = holder[0]
